@@ -408,6 +408,14 @@ def c04_items(netlist, opts=None):
             return [item('compose-raises', 'C04|compose-raises|netlist-with-unnamed-ports|' + m,
                          'composer raised %s on a netlist with unnamed ports (positional map on a never-declared module)' % m)], None, None
         return [item('compose-raises', 'C04|compose-raises|' + m, 'composer raised %s' % m)], None, None
+    # the property quantifies over every write: a second write of the same netlist (same process) must give the
+    # same file, otherwise its read-back cannot give the same modules either
+    try:
+        text2 = compose_text(netlist, **opts)
+    except Exception as e:  # noqa
+        return [item('second-write', 'C04|second-write|raises', 'writing the same netlist a second time raised %s' % norm_msg(e))], text, None
+    if text2 != text:
+        return [item('second-write', 'C04|second-write|differs', 'writing the same netlist a second time gave a different file (%d vs %d bytes)' % (len(text), len(text2)))], text, None
     try:
         n2 = parse_text(text)
     except Exception as e:  # noqa
